@@ -223,6 +223,23 @@ def run(chk):
                 if i != "err":
                     chk.violate({"kind": "property", "case": lib.show_case(("tdoc", [kind.encode(), t])), "impl": i[:600],
                                  "explanation": "a .deb control file without the required field %s was accepted" % r})
+    # the *File entry points with RELATIVE names in a process that changes its working directory between two parses (a tool
+    # walking over source trees): each parse sees the file of the directory the process is in then
+    rc = []
+    for kind, gk in (("dsc", "dsc"), ("changes", "changes")):
+        for _ in range(chk.n(30, 600)):
+            rc.append(("tdocrel", [kind.encode(), gen_doc(rng, gk)[0], gen_doc(rng, gk)[0]]))
+    for _ in range(chk.n(30, 600)):
+        t1 = gen_doc(rng, "source_par")[0] + b"\n" + gen_doc(rng, "binary_par")[0]
+        t2 = gen_doc(rng, "source_par")[0] + b"\n" + gen_doc(rng, "binary_par")[0]
+        rc.append(("tdocrel", [b"control", t1, t2]))
+    rc = [c for c in rc if b"Filename" not in c[1][1] + c[1][2]]
+    ri = chk.run_impl(rc)
+    chk.record("relative-names-after-chdir", rc, ri, lambda c, r: r == "same same")
+    for c, r in zip(rc, ri):
+        if r != "same same":
+            chk.violate({"kind": "property", "case": lib.show_case(c), "impl": r[:300],
+                         "explanation": "a *File parser called with a relative name after the process changed its working directory did not parse the file of the current directory (or points elsewhere)"})
     # Changes.GetDSC: the first listed *.dsc, parsed from the file beside the .changes
     gc, gw = [], []
     for _ in range(chk.n(60, 1200)):
